@@ -84,20 +84,26 @@ class Handle(object):
 
     def ensure_obj(self):
         if self.func is None:
-            body = self.interp.make_body()
             w = self.world
-            if self.kind == "ic":
-                self.func = eliot_twisted.inline_callbacks(body, debug=w.debug) if w.real else inlineCallbacks(body)
-            elif w.real:
-                self.func = eliot_friendly_generator_function(body)
-                self.func.debug = w.debug
-            else:
-                self.func = body
-            if w.real and (getattr(self.func, "__name__", None) != body.__name__ or getattr(self.func, "__doc__", None) != body.__doc__):
-                w.problem("transparency", "metadata", "decorated function lost __name__/__doc__ of the original")
+            body = self.interp.make_body()
+            key = (self.kind, id(body))
+            # one decorated function per (flavour, program) and world: generators with the same program are
+            # instances of the SAME decorated function, as in real code
+            self.func = w.funcs.get(key)
+            if self.func is None:
+                if self.kind == "ic":
+                    self.func = eliot_twisted.inline_callbacks(body, debug=w.debug) if w.real else inlineCallbacks(body)
+                elif w.real:
+                    self.func = eliot_friendly_generator_function(body)
+                    self.func.debug = w.debug
+                else:
+                    self.func = body
+                w.funcs[key] = self.func
+                if w.real and (getattr(self.func, "__name__", None) != body.__name__ or getattr(self.func, "__doc__", None) != body.__doc__):
+                    w.problem("transparency", "metadata", "decorated function lost __name__/__doc__ of the original")
             self.args = (w.sentinel(), w.sentinel())
             if self.kind == "gen":
-                self.obj = self.func(self.args[0], kw=self.args[1])
+                self.obj = self.func(self.interp, self.args[0], kw=self.args[1])
 
     def _record_final(self, r):
         self.final = r
@@ -127,7 +133,7 @@ class Handle(object):
         # inline_callbacks flavour: "resume" = call the function, later fire the Deferred the body waits on
         if not self.called:
             self.called = True
-            self.result_d = self.func(self.args[0], kw=self.args[1])
+            self.result_d = self.func(self.interp, self.args[0], kw=self.args[1])
             self.result_d.addBoth(self._record_final)
             return self.state()
         if how == "close": return ("skip",)
@@ -199,16 +205,16 @@ class Interp(object):
         ent = Interp._cache.get(key)
         if ent is None:
             subprogs = []; counter = [0]
-            lines = ["def make(I):", "    def body(*a, **kw):", "        'body doc'", "        I.begin(a, kw)"]
-            lines += self._compile(self.prog, 2, subprogs, counter)
-            lines += ["        I.obs('end')", "        if False: yield", "    return body"]
+            lines = ["def body(I, *a, **kw):", "    'body doc'", "    I.begin(a, kw)"]
+            lines += self._compile(self.prog, 1, subprogs, counter)
+            lines += ["    I.obs('end')", "    if False: yield"]
             src = "\n".join(lines) + "\n"
             ns = {}
             exec(compile(src, "<c15 body %d>" % len(Interp._cache), "exec"), ns)
-            ent = (ns["make"], subprogs)
+            ent = (ns["body"], subprogs)
             if len(Interp._cache) < 20000: Interp._cache[key] = ent
         self.subprogs = ent[1]
-        return ent[0](self)
+        return ent[0]
 
     def _compile(self, ops, ind, subprogs, counter):
         pad = "    " * ind; out = []
@@ -371,7 +377,7 @@ class World(object):
         self.trace = []; self.problems = []; self.keep = []; self.exc_tags = {}
         self.nsent = 0; self.nexc = 0; self.nlog = 0; self.nact = 0
         self.handles = []; self.msgs = []; self.actions = []; self.logexp = {}; self.anames = {}
-        self.chain = []; self.yield_expect = []; self.foreign = 0; self.dstack = []
+        self.chain = []; self.yield_expect = []; self.foreign = 0; self.dstack = []; self.funcs = {}
         self.dest = self.msgs.append
 
     # -- bookkeeping
@@ -708,7 +714,9 @@ def enumerate_scenarios(tier, seed):
             if rng.random() > (0.12 if quick else 0.5): continue
             pat = rng.choice(CTX_PATTERNS)
             kinds = ["ic" if rng.random() < 0.15 else "gen" for _ in range(2)]
-            out.append({"gens": [{"kind": kinds[0], "prog": progsB[0]}, {"kind": kinds[1], "prog": progsB[1]}],
+            same = rng.random() < 0.4  # two instances of one decorated function
+            if same: kinds[1] = kinds[0]
+            out.append({"gens": [{"kind": kinds[0], "prog": progsB[0]}, {"kind": kinds[1], "prog": progsB[0 if same else 1]}],
                         "steps": [["create", 0], ["create", 1]] + steps_for(seq, pat, gsel), "debug": rng.random() < 0.2})
     # family C: seeded random programs and drivers
     NC = 2500 if quick else 60000
@@ -744,6 +752,8 @@ def random_prog(rng, depth, subdepth, top=False):
 
 def random_scenario(rng):
     gens = [{"kind": "ic" if rng.random() < 0.2 else "gen", "prog": random_prog(rng, 3, 2, True)} for _ in range(rng.randint(1, 3))]
+    for g in gens[1:]:
+        if rng.random() < 0.35: g["kind"] = gens[0]["kind"]; g["prog"] = gens[0]["prog"]  # instances of one decorated function
     steps = []; depth = 0
     for _ in range(rng.randint(3, 11)):
         r = rng.random()
